@@ -230,6 +230,7 @@ func main() {
 	genLocks(root, out)
 	genC22(repo, root, out)
 	genResets(root, out)
+	genWpRegions(root, out)
 }
 
 var tableNames = []string{
